@@ -119,6 +119,10 @@ func seekRangeToPrefixes(sr SeekRange) *util.Range {
 	} else {
 		rang = util.BytesPrefix(start)
 		rang.Start = sr.Prefix
+		if len(sr.Start) != 0 {
+			// Seek goes down from prefix+start itself; keys extending it are greater.
+			rang.Limit = slices.Concat(start, []byte{0})
+		}
 	}
 	return rang
 }
